@@ -214,4 +214,107 @@ theorem eg_value_single {p q : Position} (m : MirrorPos p q) (s stm : Nat) (hs :
     · unfold egStrongScore
       simp only [e2, k1, k2, l1, n1, n2, C13_normSq_mirror _ s l2 hs]
 
+theorem perm_pair (l : List Nat) (x y : Nat) (h : l.Perm [x, y]) : l = [x, y] ∨ l = [y, x] := by
+  have hl := h.length_eq
+  match l, hl with
+  | [a, b], _ =>
+    have ha : a ∈ [x, y] := h.mem_iff.1 (by simp)
+    have hb : b ∈ [x, y] := h.mem_iff.1 (by simp)
+    have hx : x ∈ [a, b] := h.mem_iff.2 (by simp)
+    have hy : y ∈ [a, b] := h.mem_iff.2 (by simp)
+    simp at ha hb hx hy
+    rcases ha with rfl | rfl <;> rcases hb with rfl | rfl
+    · left; rcases hy with rfl | rfl <;> rfl
+    · left; rfl
+    · right; rfl
+    · right; rcases hx with rfl | rfl <;> rfl
+
+def colourFlipOK : Bool := (List.range 64).all fun x => sqColor (flipV x) != sqColor x
+theorem colourFlipOK_true : colourFlipOK = true := by decide +kernel
+
+/-- KmmKm (two minors against one): the value reads the counts and, for two bishops, whether they stand on squares of different colours -/
+theorem eg_value_kmmkm {p q : Position} (m : MirrorPos p q) (s stm : Nat) (hs : s ≤ 1) :
+    egStrongScore .KmmKm (BBs.of q) q.board (1 - stm) (1 - s) = egStrongScore .KmmKm (BBs.of p) p.board stm s := by
+  have hs1 : 1 - s ≤ 1 := by omega
+  have e2 : 1 - (1 - s) = s := by omega
+  have hqlen : q.board.length = 64 := by rw [m.hq]; exact mirrorBoard_length _
+  have cB := cnt_mirror m s BISHOP hs (by decide) (by decide)
+  have cN : countOf q.board (mkPiece s KNIGHT) = countOf p.board (mkPiece (1 - s) KNIGHT) := by
+    have := cnt_mirror m (1 - s) KNIGHT hs1 (by decide) (by decide); rw [e2] at this; exact this
+  unfold egStrongScore
+  simp only [e2, cB, cN]
+  by_cases hcond : ((countOf p.board (mkPiece s BISHOP) : Nat) : Int) = 2 ∧ ((countOf p.board (mkPiece (1 - s) KNIGHT) : Nat) : Int) = 1
+  · simp only [hcond, and_self, decide_true, Bool.not_true, Bool.false_eq_true, ↓reduceIte]
+    have h2 : countOf p.board (mkPiece s BISHOP) = 2 := by have := hcond.1; omega
+    have mB := m.ck s BISHOP hs (by decide) (by decide)
+    have hlen : (bitsOf ((BBs.of p).ck s BISHOP)).length = 2 := by
+      rw [ck_eq p s BISHOP hs (by decide), bitsOf_bbOfPiece_length _ _ m.len]; exact h2
+    match hb : bitsOf ((BBs.of p).ck s BISHOP), hlen with
+    | [a, b], _ =>
+      have hperm := mB.bits_perm
+      rw [hb] at hperm
+      simp only [List.map_cons, List.map_nil] at hperm
+      have ha64 : a < 64 := ((mem_bitsOf _ a).1 (by rw [hb]; simp)).1
+      have hb64 : b < 64 := ((mem_bitsOf _ b).1 (by rw [hb]; simp)).1
+      have hC := colourFlipOK_true
+      simp only [colourFlipOK, List.all_eq_true, List.mem_range, bne_iff_ne] at hC
+      have ca := hC a ha64
+      have cb := hC b hb64
+      have hsc : ∀ x, sqColor x = 0 ∨ sqColor x = 1 := by
+        intro x; unfold sqColor; split <;> simp
+      have key : (sqColor (flipV a) ≠ sqColor (flipV b)) ↔ (sqColor a ≠ sqColor b) := by
+        rcases hsc a with h1 | h1 <;> rcases hsc b with h2 | h2 <;> rcases hsc (flipV a) with h3 | h3 <;> rcases hsc (flipV b) with h4 | h4 <;>
+          simp_all
+      rcases perm_pair _ _ _ hperm with hy | hy
+      · rw [hy]
+        simp only [List.getD_cons_zero, List.getD_cons_succ]
+        by_cases hk : sqColor a ≠ sqColor b
+        · rw [if_pos hk, if_pos (key.2 hk)]
+        · rw [if_neg hk, if_neg (fun h' => hk (key.1 h'))]
+      · rw [hy]
+        simp only [List.getD_cons_zero, List.getD_cons_succ]
+        by_cases hk : sqColor a ≠ sqColor b
+        · rw [if_pos hk, if_pos (fun h' => (key.2 hk) h'.symm)]
+        · rw [if_neg hk, if_neg (fun h' => hk (key.1 (fun h'' => h' h''.symm)))]
+  · have : ¬ (((countOf p.board (mkPiece s BISHOP) : Nat) : Int) = 2 ∧ ((countOf p.board (mkPiece (1 - s) KNIGHT) : Nat) : Int) = 1) := hcond
+    simp only [this, decide_false, Bool.not_false, ↓reduceIte]
+
+/-- KNNKP: kings, the weak pawn, and the two knights (in either order) -/
+theorem eg_value_knnkp {p q : Position} (m : MirrorPos p q) (s stm : Nat) (hs : s ≤ 1)
+    (ks kw : Nat) (hks : KingAt p.board s ks) (hkw : KingAt p.board (1 - s) kw)
+    (hP : countOf p.board (mkPiece (1 - s) PAWN) = 1) (hN : countOf p.board (mkPiece s KNIGHT) = 2) :
+    egStrongScore .KNNKP (BBs.of q) q.board (1 - stm) (1 - s) = egStrongScore .KNNKP (BBs.of p) p.board stm s := by
+  have hs1 : 1 - s ≤ 1 := by omega
+  have e2 : 1 - (1 - s) = s := by omega
+  have k1 : kingSq q.board (1 - s) = flipV (kingSq p.board s) := by rw [m.hq]; exact (C13_king_mirror p.board m.len m.codes s ks hs hks).2
+  have k2 : kingSq q.board s = flipV (kingSq p.board (1 - s)) := by
+    have := (C13_king_mirror p.board m.len m.codes (1 - s) kw hs1 hkw).2
+    rw [e2, ← m.hq] at this; exact this
+  have hk1 : kingSq p.board s < 64 := by rw [kingSq_eq p.board s ks m.len hks]; exact hks.lt
+  have hk2 : kingSq p.board (1 - s) < 64 := by rw [kingSq_eq p.board (1 - s) kw m.len hkw]; exact hkw.lt
+  have n1 := C13_normSq_mirror _ s hk1 hs
+  have n2 := C13_normSq_mirror _ s hk2 hs
+  obtain ⟨l1, l2⟩ := sq1_mirror m (1 - s) PAWN hs1 (by decide) (by decide) hP
+  rw [e2] at l1
+  have mN := m.ck s KNIGHT hs (by decide) (by decide)
+  have hlen : (bitsOf ((BBs.of p).ck s KNIGHT)).length = 2 := by
+    rw [ck_eq p s KNIGHT hs (by decide), bitsOf_bbOfPiece_length _ _ m.len]; exact hN
+  unfold egStrongScore
+  simp only [e2, k1, k2, l1, n1, n2, C13_normSq_mirror _ s l2 hs]
+  match hb : bitsOf ((BBs.of p).ck s KNIGHT), hlen with
+  | [a, b], _ =>
+    have hperm := mN.bits_perm
+    rw [hb] at hperm
+    simp only [List.map_cons, List.map_nil] at hperm
+    have ha64 : a < 64 := ((mem_bitsOf _ a).1 (by rw [hb]; simp)).1
+    have hb64 : b < 64 := ((mem_bitsOf _ b).1 (by rw [hb]; simp)).1
+    have na := C13_normSq_mirror a s ha64 hs
+    have nb := C13_normSq_mirror b s hb64 hs
+    rcases perm_pair _ _ _ hperm with hy | hy
+    · rw [hy]
+      simp only [List.getD_cons_zero, List.getD_cons_succ, na, nb]
+    · rw [hy]
+      simp only [List.getD_cons_zero, List.getD_cons_succ, na, nb]
+      omega
+
 end Chess
